@@ -419,6 +419,8 @@ impl Reader {
       }
       Some(bad_policy_id) => {
         // no QoS match.
+        // A writer that was matched before and has changed its QoS no longer is.
+        self.remove_writer_proxy(writer);
         self.offered_incompatible_qos_count += 1;
         self.send_status_change(DataReaderStatus::RequestedIncompatibleQos {
           count: CountWithChange::new(self.offered_incompatible_qos_count, 1),
